@@ -30,8 +30,8 @@ from harness.props import c03 as L
 
 META = {
     "id": "C11",
-    "technique": "Coq proof (interpreter-stack model of the two stages parse() -> emit() over program trees, constants per block slot / header / simple statement measured on the current source: the guard of emit() - its own RecursionError / MemoryError reported as ValueError, like parse() - observed on the real emit() by the translator: with the guard the pipeline never ends in an internal error, for every pair of constant tables, every program tree and every room; the outcome characterised case by case (firmware / clean rejection by parse / by emit), the guard changes only the kind of the failure; emit needs no more frames than parse on every tree whenever its constants are dominated, so everything parse() accepts is emitted; necessity of the guard: one frame more per level in any slot fails on an accepted ladder - with an internal error when unguarded; model of the function-variant memo in front of _parse_function with the sequence of body parses as its cost: looked up through the alias table no (function, call signature) is parsed twice, for every call graph - at most defs + distinct call signatures body parses; looked up by the raw signature a promoted helper is parsed again at every call, fan-out ^ depth on helper chains; regenerated inventory of every regular expression of the transpiler, lowered from CPython's own parse: flat => polynomially many backtracking paths on every text, nested quantifier => exponentially many; process model of folded list objects across parse() calls: stateless without a module-level memo, refuted with one, inventory of module-level state shows none; effect-instrumented model of _eval_const: whitelist of primitives by induction over expressions, reject-before-evaluate for unsupported nodes, exception kinds at the call sites, size bound of folded integers per operator and per expression) + extracted-model correspondence (result and primitive trace vs the real _eval_const under recording wrappers) + regex model vs re.fullmatch, session model vs firmware text + pump strings derived from every repeat of every pattern in every line / argument position, generic long runs, scale families by doubling (promptness relative to the stream's median, confirmed in a new process, growth series in the replay), sessions of scripts sharing literal texts vs the same script alone + variant model vs the recorded sequence of real _parse_function invocations on generated scripts of defs and calls, and the parsed-once statement evaluated on that sequence; depth families of helpers calling each other (37 families: promoted / unpromoted / annotated parameters, fan-out 1-3, several signatures and parameters, calls in conditions / loops / try / arguments / f-strings / the main loop, recursion, rings, forward calls, redefinition, lattices, nested blocks inside re-parsed bodies) measured by doubling the depth against a baseline-relative budget + audit-hook / canary / exception-kind observation of the real parse()+emit() on hostile scripts, real Python sources and noise (support only)",
-    "level_text": "Stack: C11_nesting_never_crashes_emit (current source: every room, EVERY program tree - replaces C11_nesting_never_crashes_emit_refuted / _partial after the repair of F-C11-emit-stack-window), C11_emit_is_guarded_current_source (obligation over Gen/NestDepth.v: the guard observed on the real emit() on every run), C11_guarded_emit_never_crashes / C11_pipeline_outcome_characterised / C11_stack_crash_iff_unguarded_window / C11_guard_only_changes_the_kind (every pair of constant tables, every program tree, every room), C11_former_window_is_clean_rejection, C11_emit_stack_within_parse_stack / C11_accepted_nesting_is_emitted (which depths still yield firmware; dominance of the measured tables is a hypothesis, reported in the distribution), C11_extra_frame_per_level_opens_window (necessity of the guard). Theorems C11_* (coq/Props/C11.v) are proved for all expressions and environments about the Gallina model of _eval_const and its call sites (cast / operator tables regenerated from parser.py on every run): whitelist of primitive operations, no evaluation below an unsupported node, error kinds, size of the folded integers (at most max(_MAX_CONST_BITS, widest operand + 1) bits per operator application, linear in the input for whole arithmetic expressions; 2**2**n is refused beyond the bound) and a linear number of operations; C11_regex_table_flat / _polynomial: every regular expression of the current source (Gen/Regexes.v, regenerated) is flat, hence has at most (length + 2)^size backtracking paths on every text, while the nested-quantifier shape has at least 2^n (C11_nested_quantifier_exponential, C11_port_fragment_exponential); C11_fold_session_stateless(_current_source), C11_parse_leaves_module_store, C11_fold_memo_refuted, C11_no_mutated_module_state: folded list objects cannot leak from one parse() to the next because no module-level object is mutated or handed out (Gen/SetSites.v). C11_variant_parsed_once / _parses_bounded / _parsed_only_when_called: for every script of defs and calls (Lang/VariantCost.v: return sums of parameters, literals and calls; recursion, forward calls, promotion of parameters to String) _ensure_function_variant parses no (function, call signature) twice, so the def / call machinery performs at most defs + distinct call signatures body parses; C11_variant_raw_lookup_refuted: not so when the fast path ignores the alias table. Open finding F-C11-blank-run-cubic: flat is polynomial, not linear - three adjacent blank-accepting runs make long white-space runs cubic. The clause about the Python process (no file, process, network or environment access; only ValueError/SyntaxError; termination) for arbitrary texts is outside the technique: it is observed with sys.addaudithook, canary files, exception kinds and a 30 s limit on generated hostile scripts, and labelled as support.",
+    "technique": "Coq proof (interpreter-stack model of the two stages parse() -> emit() over program trees, constants per block slot / header / simple statement measured on the current source: the guard of emit() - its own RecursionError / MemoryError reported as ValueError, like parse() - observed on the real emit() by the translator: with the guard the pipeline never ends in an internal error, for every pair of constant tables, every program tree and every room; the outcome characterised case by case (firmware / clean rejection by parse / by emit), the guard changes only the kind of the failure; emit needs no more frames than parse on every tree whenever its constants are dominated, so everything parse() accepts is emitted; necessity of the guard: one frame more per level in any slot fails on an accepted ladder - with an internal error when unguarded; model of the function-variant memo in front of _parse_function with the sequence of body parses as its cost: looked up through the alias table no (function, call signature) is parsed twice, for every call graph - at most defs + distinct call signatures body parses; looked up by the raw signature a promoted helper is parsed again at every call, fan-out ^ depth on helper chains; regenerated inventory of every regular expression of the transpiler, lowered from CPython's own parse: flat => polynomially many backtracking paths on every text, nested quantifier => exponentially many; process model of folded list objects across parse() calls: stateless without a module-level memo, refuted with one, inventory of module-level state shows none; process model of the whitelist of foldable names across parse() calls: a script binding len / str ... leaves later scripts alone unless the binding is discarded from the module-level set (refuted), the inventory shows the set is only membership-tested; effect-instrumented model of _eval_const: whitelist of primitives by induction over expressions, reject-before-evaluate for unsupported nodes, exception kinds at the call sites, size bound of folded integers per operator and per expression) + extracted-model correspondence (result and primitive trace vs the real _eval_const under recording wrappers) + regex model vs re.fullmatch, session model vs firmware text + pump strings derived from every repeat of every pattern in every line / argument position, generic long runs, scale families by doubling (promptness relative to the stream's median, confirmed in a new process, growth series in the replay), sessions of scripts sharing literal texts vs the same script alone + variant model vs the recorded sequence of real _parse_function invocations on generated scripts of defs and calls, and the parsed-once statement evaluated on that sequence; depth families of helpers calling each other (37 families: promoted / unpromoted / annotated parameters, fan-out 1-3, several signatures and parameters, calls in conditions / loops / try / arguments / f-strings / the main loop, recursion, rings, forward calls, redefinition, lattices, nested blocks inside re-parsed bodies) measured by doubling the depth against a baseline-relative budget + audit-hook / canary / exception-kind observation of the real parse()+emit() on hostile scripts, real Python sources and noise, and of Reduino.target(upload=False) on scripts that need / do not need external libraries without and with a pio on PATH (support only)",
+    "level_text": "Stack: C11_nesting_never_crashes_emit (current source: every room, EVERY program tree - replaces C11_nesting_never_crashes_emit_refuted / _partial after the repair of F-C11-emit-stack-window), C11_emit_is_guarded_current_source (obligation over Gen/NestDepth.v: the guard observed on the real emit() on every run), C11_guarded_emit_never_crashes / C11_pipeline_outcome_characterised / C11_stack_crash_iff_unguarded_window / C11_guard_only_changes_the_kind (every pair of constant tables, every program tree, every room), C11_former_window_is_clean_rejection, C11_emit_stack_within_parse_stack / C11_accepted_nesting_is_emitted (which depths still yield firmware; dominance of the measured tables is a hypothesis, reported in the distribution), C11_extra_frame_per_level_opens_window (necessity of the guard). Theorems C11_* (coq/Props/C11.v) are proved for all expressions and environments about the Gallina model of _eval_const and its call sites (cast / operator tables regenerated from parser.py on every run): whitelist of primitive operations, no evaluation below an unsupported node, error kinds, size of the folded integers (at most max(_MAX_CONST_BITS, widest operand + 1) bits per operator application, linear in the input for whole arithmetic expressions; 2**2**n is refused beyond the bound) and a linear number of operations; C11_regex_table_flat / _polynomial: every regular expression of the current source (Gen/Regexes.v, regenerated) is flat, hence has at most (length + 2)^size backtracking paths on every text, while the nested-quantifier shape has at least 2^n (C11_nested_quantifier_exponential, C11_port_fragment_exponential); C11_fold_session_stateless(_current_source), C11_parse_leaves_module_store, C11_fold_memo_refuted, C11_no_mutated_module_state: folded list objects cannot leak from one parse() to the next because no module-level object is mutated or handed out (Gen/SetSites.v). C11_name_session_stateless / C11_parse_leaves_whitelist / C11_name_shadow_in_module_set_refuted / C11_whitelist_confined_current_source / C11_name_session_stateless_current_source (Lang/NameSession.v): a script that defines a function named like a foldable builtin cannot change how a later script of the process is folded as long as the binding is recorded nowhere or per parse - discarding it from the module-level whitelist is refuted by a two-script session; in the current source the whitelist object is only ever membership-tested. C11_variant_parsed_once / _parses_bounded / _parsed_only_when_called: for every script of defs and calls (Lang/VariantCost.v: return sums of parameters, literals and calls; recursion, forward calls, promotion of parameters to String) _ensure_function_variant parses no (function, call signature) twice, so the def / call machinery performs at most defs + distinct call signatures body parses; C11_variant_raw_lookup_refuted: not so when the fast path ignores the alias table. Open finding F-C11-blank-run-cubic: flat is polynomial, not linear - three adjacent blank-accepting runs make long white-space runs cubic. The clause about the Python process (no file, process, network or environment access; only ValueError/SyntaxError; termination) for arbitrary texts is outside the technique: it is observed with sys.addaudithook, canary files, exception kinds and a 30 s limit on generated hostile scripts, and labelled as support.",
     "level_note": "Trusted: Coq kernel, translator harness/gen/safecasts.py, extraction, OCaml driver; for the observed part CPython's audit events (open, exec, import, os.*, subprocess.*, socket.*) as the definition of 'access'. The theorems are about the model; the correspondence bounds its distance from parser.py.",
     "design_ref": "DESIGN.md section 4 C11",
 }
@@ -71,7 +71,7 @@ HEADER = (
 POSITIONS = [
     "led2 = Led({H})", "sleep({H})", "led.blink({H}, 1)", "led.blink(100, {H})", "led.set_brightness({H})", "if {H}:\n    led.on()",
     "if n > 1 and {H}:\n    led.on()", "k = 0\nwhile k < {H}:\n    k = k + 1", "for i in range({H}):\n    led.on()", "ys = [{H}]", "ys = [1, {H}, 3]",
-    "mon.write(f\"{{{H}}}\")", "mon.write({H})", "t = f\"a{{{H}}}b\"", "lcd.glyph(0, {H})", "lcd.glyph({H}, [0, 0, 0, 0, 0, 0, 0, 0])",
+    "mon.write(f\"{{H}}\")", "mon.write(f\"{{H}!r:>{n}}\")", "lcd.write(0, 0, f\"v={{H}}\")", "mon.write({H})", "t = f\"a{{H}}b\"", "lcd.glyph(0, {H})", "lcd.glyph({H}, [0, 0, 0, 0, 0, 0, 0, 0])",
     "lcd.glyph(0, [{H}, 0, 0, 0, 0, 0, 0, 0])", "led.flash_pattern({H})", "led.flash_pattern([1, {H}])", "led.flash_pattern([1, 0], {H})",
     "y = {H}", "y = n + {H}", "y, z = 1, {H}", "n += {H}", "xs.append({H})", "xs.remove({H})", "@{H}\ndef f():\n    return 1\ny = f()",
     "def f(a={H}):\n    return a\ny = f()", "def f(a):\n    return {H}\ny = f(1)", "us = Ultrasonic(trig=7, echo=8, sensor={H})", "us = Ultrasonic({H}, 8)",
@@ -84,8 +84,37 @@ POSITIONS = [
     "lcd2 = LCD(rs=12, en=11, d4=5, d5=4, d6=3, d7=2, rw={H})", "lcd2 = LCD(i2c_addr={H})", "lcd2 = LCD(i2c_addr=0x27, cols={H}, rows=2)",
     "lcd.progress(0, 50, width={H})", "lcd.progress(0, {H})", "lcd.progress(0, 5, {H})", "lcd.brightness({H})", "sv = Servo(9, max_pulse_us={H})",
     "sv = Servo(9, max_angle={H})", "bz.play_tone({H}, 10)", "led.fade_in({H})", "led.fade_out(10, {H})", "lcd.animate('scroll', 0, 'hi', speed_ms={H})",
-    "us = Ultrasonic(7, {H})", "for i in range(1, {H}):\n    led.on()", "for i in range(0, 10, {H}):\n    led.on()", "bz.beep({H})", "bz.sweep(100, {H}, 50)",
+    "us = Ultrasonic(7, {H})", "def len(a={H}):\n    return a\ny = len(2)", "def str(a):\n    return {H}\ny = str(1)", "def len(a):\n    return a\ny = len({H})", "for i in range(1, {H}):\n    led.on()", "for i in range(0, 10, {H}):\n    led.on()", "bz.beep({H})", "bz.sweep(100, {H}, 50)",
 ]
+
+
+# further places an expression can stand in Python (most are outside the supported subset: the script is rejected or the line is
+# reported - never evaluated); used with the hostile payloads only
+POSITIONS_EXTRA = [
+    "y: {H} = 1", "def f(a: {H}):\n    return a\ny = f(1)", "def f(a) -> {H}:\n    return a\ny = f(1)", "class A:\n    x = {H}", "class A({H}):\n    pass", "with {H} as fh:\n    led.on()",
+    "assert {H}", "assert n > 0, {H}", "raise {H}", "del xs[{H}]", "xs[{H}] = 1", "xs[0] += {H}", "for i in {H}:\n    led.on()", "while {H}:\n    led.on()", "if n > 5:\n    led.on()\nelif {H}:\n    led.off()",
+    "try:\n    led.on()\nexcept {H}:\n    led.off()", "print({H})", "led2 = Led(pin={H})", "led2 = Led(*{H})", "led2 = Led(**{H})", "sleep(ms={H})", "lcd.write({H}, 0, \"a\")", "mon2 = SerialMonitor(baud={H})",
+    "match {H}:\n    case 1:\n        led.on()", "match n:\n    case 1 if {H}:\n        led.on()", "y = lambda a={H}: a", "global_y = [i for i in range(3) if {H}]", "y = n if {H} else 2", "return {H}", "led.on() if {H} else led.off()",
+    "y = (1, {H})[0]", "y = not {H}", "y = -{H}", "s2 = s + {H}", "s2 = \"%s\" % {H}", "s2 = \"{{}}\".format({H})", "led.{H}", "x.y = {H}", "def f(a, *b, c={H}, **d):\n    return a\ny = f(1)", "async def f():\n    await {H}",
+    "def f():\n    yield {H}\ny = f()", "nonlocal_y = [{H} for _ in range(2)]", "import os\nos.environ[\"A\"] = str({H})", "target(\"COM3\", upload={H})", "target(port={H})", "if __name__ == \"__main__\":\n    y = {H}",
+]
+# import statements (never executed: `import antigravity` would open a browser, `import this` prints) in every statement position
+IMPORT_LINES = ["import this", "import antigravity", "import wave, sqlite3", "from this import s as zen", "import os as sleep", "from subprocess import run", "from os import system as sleep", "import socket; socket.socket()",
+                "from Reduino.Actuators import *", "from Reduino import *", "import Reduino.toolchain.pio as pio\npio.ensure_pio()", "from Reduino.toolchain.pio import ensure_pio\nensure_pio()", "from . import this", "from __future__ import annotations",
+                "import importlib\nimportlib.import_module(\"this\")", "__import__(\"this\")", "import ctypes", "import this as Led\nled9 = Led(9)"]
+IMPORT_FRAMES = ["{I}\n", "led.on()\n{I}\nled.off()\n", "def f():\n    {I}\n    return 1\ny = f()\n", "if n > 1:\n    {I}\n", "try:\n    {I}\nexcept ImportError:\n    led.on()\n", "while True:\n    {I}\n    sleep(100)\n"]
+
+
+def import_scripts():
+    out = []
+    for imp in IMPORT_LINES:
+        for fr in IMPORT_FRAMES:
+            ind = fr[:fr.index("{I}")].rsplit("\n", 1)[-1]
+            body = fr.replace("{I}", imp.replace("\n", "\n" + ind))
+            out.append(HEADER + body)
+            if fr == IMPORT_FRAMES[0]:
+                out.append(imp + "\n" + HEADER + "led.on()\n")
+    return out
 
 
 def hostile_exprs(canary: str):
@@ -164,6 +193,8 @@ def check_script_result(ctx, stats, kind, text, r, canary):
         ctx.fail(f"transpiler raised {r['exc']} (neither ValueError nor SyntaxError)", case, "firmware source, ValueError or SyntaxError", r, key="exc-kind:" + str(r["exc"]))
     if r["audit"]:
         ctx.fail("transpiling performed a file / process / import / exec access (audit event)", case, "no audit event", r["audit"], key="audit:" + r["audit"][0][0])
+    if r.get("env"):
+        ctx.fail("transpiling read the process environment", case, "no environment access (REDUINO_VERIF, the verification hook's own switch, excepted)", r["env"], key="env-read:" + r["env"][0])
     if canary and os.path.exists(canary):
         os.remove(canary)
         ctx.fail("a planted expression was executed during transpiling (canary file created)", case, "canary absent", "canary created", key="canary")
@@ -439,7 +470,8 @@ def run(ctx: C.Ctx):
                     stats["prim:" + p[0] + (":" + p[1] if len(p) > 1 else "")] += 1
 
     # ---------------- 2. the process (observed, support only): hostile scripts, Python sources, noise
-    ref_script = HEADER + "y = n + 1\nif n > 1:\n    led.on()\nsleep(10 * 2)\nwhile True:\n    mon.write(len(s))\n    sleep(100)\n"
+    ref_script = HEADER + "y = n + 1\nif n > 1:\n    led.on()\nsleep(10 * 2)\nled3 = Led(int(\"7\"))\nq = max(100, 250)\nr = len(\"abc\")\nled.set_brightness(min(255, 300))\nt = str(12)\n" \
+                          "while True:\n    mon.write(len(s))\n    sleep(abs(-100))\n    if bool(1):\n        mon.write(float(2))\n"
     scripts = []
     hx = hostile_exprs(canary)
     pos = POSITIONS
@@ -447,8 +479,11 @@ def run(ctx: C.Ctx):
         pairs = [(p, h) for p in pos for h in rng.sample(hx, 6)] + [(p, hx[0]) for p in pos] + [(pos[1], h) for h in hx] + [(pos[20], h) for h in hx]
     else:
         pairs = [(p, h) for p in pos for h in hx]
+    pairs += [(p, h) for p in POSITIONS_EXTRA for h in (hx if thorough else [hx[0]] + rng.sample(hx, 5))]
     for p, h in pairs:
         scripts.append(("hostile", HEADER + p.replace("{H}", h) + "\n"))
+    for t in import_scripts():
+        scripts.append(("import-statement", t))
     # every source of a non-ValueError exception of the evaluator, in every position
     ERR_SOURCES = ["1 / 0", "1 // 0", "1 % 0", "0 ** -1", "-'a'", "1 < 'a'", "max(1, 'a')", "min('a', 1)", "1 << -1", "1.5 | 1", "int('x')",
                    "float('x')", "len(5)", "abs('a')", "'a' + 1", "2.0 ** 5000", "int(1e400)", "(1, 2) < (1, 'a')", "f'{1 / 0}'",
@@ -499,8 +534,23 @@ def run(ctx: C.Ctx):
             if first_ref.get("cpp_sha", "exc").startswith("exc"):
                 ctx.disagree("the reference script is not accepted", ref_script, "accepted", first_ref)
         if out[-1] != out[0] or out[0] != first_ref:
-            ctx.fail("transpiling hostile inputs changed the output for an unrelated script (input-independent state mutated)",
-                     {"scripts": f"{i}..{i + chunk}"}, out[0], out[-1], key="state-leak")
+            # which script of the chunk?  the reference script after every script of the chunk, in one new process
+            inter = [ref_script]
+            for _, t in scripts[i:i + chunk]:
+                inter += [t, ref_script]
+            so = C.run_impl("c11_impl.py", {"cases": [["session", inter, False]], "limit": 30}, timeout=3600)[0]
+            k = next((j for j in range(2, len(so), 2) if (so[j]["sha"], so[j]["exc"]) != (so[0]["sha"], so[0]["exc"])), None)
+            pair = None
+            if k is not None:
+                two = C.run_impl("c11_impl.py", {"cases": [["session", [inter[k - 1], ref_script], False]], "limit": 30})[0]
+                if (two[1]["sha"], two[1]["exc"]) != (so[0]["sha"], so[0]["exc"]):
+                    pair = [inter[k - 1], ref_script]
+            if pair:
+                ctx.fail("transpiling one script changes what a later script of the same process is transpiled to (input-independent state mutated): the reference script after it differs from the reference script alone",
+                         {"kind": "session", "scripts in one process": pair}, {"second script alone": so[0]}, {"second script after the first": two[1]}, key="state-leak")
+            else:
+                ctx.fail("transpiling hostile inputs changed the output for an unrelated script (input-independent state mutated)",
+                         {"kind": "session", "scripts in one process": inter[:k + 1] if k is not None else [ref_script] + [t for _, t in scripts[i:i + chunk]] + [ref_script]}, out[0], out[-1], key="state-leak")
         res += out[1:-1]
     walls = []
     for (kind, text), r in zip(scripts, res):
@@ -548,6 +598,21 @@ def run(ctx: C.Ctx):
     n_extra += O.session_stream(ctx, stats, rng, thorough)
     stats["seconds:session-stream"] = round(_t.time() - t0, 1)
 
+    # ---------------- 4b. the user-facing entry point target(upload=False): scripts that need a library (Servo, both LCD kinds), ones
+    # that need none, rejected ones and a sample of the hostile stream (its header declares a parallel LCD) - without and with a
+    # `pio` on PATH: no process is started, the outcome is firmware text or ValueError / SyntaxError
+    t0 = _t.time()
+    hs = [t for k, t in scripts if k == "hostile"]
+    hs = [ref_script] + [hs[i] for i in sorted(random.Random(f"C11:target:{ctx.seed}").sample(range(len(hs)), min(len(hs), 400 if thorough else 70)))]
+    hs += [HEADER + p.replace("{H}", e) + "\n" for p in POSITIONS if "Servo(" in p or "LCD(" in p for e in ("9", "n + 6", hx[0], hx[1], "1e999", "1 / 0")]
+    others = [t for k, t in scripts if k in ("noise", "python-source", "import-statement", "deep", "infinity") and len(t) < 60000]
+    hs += random.Random(f"C11:target2:{ctx.seed}").sample(others, min(len(others), 200 if thorough else 40))
+    n_extra += O.target_stream(ctx, stats, rng, thorough, hs)
+    if os.path.exists(canary):
+        os.remove(canary)
+        ctx.fail("a planted expression was executed during target(upload=False) (canary file created)", {"kind": "target-stream"}, "canary absent", "canary created", key="canary")
+    stats["seconds:target-stream"] = round(_t.time() - t0, 1)
+
     # ---------------- 5. known findings: every open one is replayed here (the fixed ones were replayed in step 0)
     for f in ctx.findings:
         if f.get("kind") == "fixed":
@@ -570,7 +635,7 @@ def run(ctx: C.Ctx):
     ctx.coverage.update({
         "evaluations": len(cases) + len(scripts) + n_extra,
         "distinct_nontrivial": len(distinct),
-        "rule": "2b (stack over parse() -> emit(); proof tie + oracle): (a) 36 (120) seeded random program trees 6-18 blocks deep over 9 block slots (if / elif / else / while / for / try / except bodies, main loop, function body; 1-3 statements per body) and 61 simple statements, 12 (40) ladders of random slot patterns with side statements, and every simple statement at the bottom of a ladder - the deepest interpreter frame of the real parse() / emit() (sys.setprofile, a process without audit hook) against need_prog of Lang/NestDepth.v with the regenerated constants, then the outcome of the real pipeline (firmware / clean ValueError from parse / internal error in emit / clean ValueError from emit) with exactly `room` frames left (room = parse's need, one less, three more, emit's need, one less; sys.setrecursionlimit relative to the calling frame) against the model's pipeline; (b) 252 (327) ladder families - every slot alone around 4 statements, main loop / function body over every slot, every simple statement under an if-ladder and under a two-slot mixture, all ordered pairs of slots, random 2-5-slot patterns with 1-4 side statements per level, every slot around each of the four statements of the repaired finding F-C11-emit-stack-window - each with 36 (and 61) frames of room: the deepest depth parse() accepts is found by bisection (+ look-ahead for non-monotone acceptance), emit() must end in firmware or ValueError there and on the two ladders below, every rejection must be ValueError; a failing family is carried to the default limit (shallowest failing depth with 48 and 72 frames, extrapolated to 999 = emit(parse(text)) at module level, run once) and that script is the replay; (c) expressions nested 1-45 deep (6 shapes) in 10 statement / header positions inside 26 and 38 nested blocks with 60 frames of room: both stages may only fail with ValueError; (d) ladders of 21 block headers outside the supported subset or in other spellings (with / class / nested and async def / match / for over lists and tuples / range with step / inner while True / walrus / while-else / for-else / try-finally / try-else / except-as / elif chains / multi-line and commented headers / lambda bodies) and of tab / two-blank indentation, at 19 depths around the acceptance boundary with 40 frames of room: both stages may only end cleanly. Non-trivial here = every tree / ladder at least 6 blocks deep. 0: the witnesses of the repaired findings (for F-C11-emit-stack-window: the deepest if-ladder around rgb.off() parse() accepts with 80 frames left, and the two below; thorough: the 994- and 993-level scripts under the default recursion limit). 1 (proof tie): the C03 expression stream (boundary expressions x environments incl. the values around the size bound + seeded random expressions) plus hostile expression forms, plus towers / giant shifts / wide products and seeded random integer expressions with exponents and shift counts around and beyond the size bound (size oracle max(bound, widest leaf) + nodes on every call-free result), each through the extracted instrumented model (result, primitive trace) and the real _eval_const under recording wrappers (operator module alias, _SAFE_CASTS values, max/min/abs in the parser's namespace) with sys.setprofile / sys.addaudithook; non-trivial = distinct (expression, environment) on which the real evaluator performed at least one primitive operation. 2 (observed, support): hostile expression forms (file / process / import / eval / attribute / lambda / comprehension / walrus / f-string payloads writing a canary file) in every argument position of the property's quantifier (pins, delays, conditions, loop bounds, list items, f-strings, decorators, defaults, device constructor keywords, expression statements), generated expressions in the same positions, real Python sources (the project's own files and standard-library modules), byte noise / shuffled / truncated / corrupted scripts, plus the formerly excluded regions (infinity / NaN / beyond-float-range values x every position incl. all int()/float() resolver sites, towers-shifts-products x positions, multi-line squaring chains, expressions 150..20000 levels deep x positions) - each through the real parse()+emit() with audit hook, canary check, exception kind and a 30 s limit; non-trivial = distinct hostile script that was accepted (firmware produced) - the ones where evaluating the payload would have been possible. 3 (promptness): the regenerated regex inventory - (a) model vs re.fullmatch on the minimal text of each pattern, its pumps and seeded edits of them; (b) pump scripts: for every unbounded repeat of every pattern x up to three feeds (characters of its set / the group's text / the inner set of a nested repeat) x continuations (the rest of the pattern, cut after the run, + one of ! ( [0] ' + 1' \\x01) at 28 characters (every place a line can stand: top level, while / if / else / for / def / try bodies, right-hand side; argument positions incl. quoted pin strings for the patterns applied to arguments) and at 1200 (quick) / 400, 1500, 6000 (thorough) characters, white-space runs cut to the guard; (c) 28 run alphabets x 41 statement frames (target(<run>()), h = target(<run>[0]), names, conditions, decorators, imports, except clauses ...) at 40 and 1500 characters; (d) 23 scale families (many lines / long lines / CRLF) at 250 .. 2000 (8000) by doubling. A script is slow when it needs more than max(5 s, 200 x the median of its stream) twice, the second time alone in a new process; the replay carries the series over growing runs. (e) pieces that refer to each other: 36 fixed helper chains + seeded random scripts of 1..7 defs (return sums of parameters, literals of the four type labels and calls of earlier / later / the same function with parameters or literals as arguments, arity 1..3) with top-level calls between and after the defs, through Lang/VariantCost.v (extracted) and the real parser under a wrapper around _parse_function: the ordered sequence (function, forced signature) must be equal, and no pair may occur twice; 37 depth families of helpers calling each other (see technique) at depth 3, 6, 12, 24 (thorough: .. 96): a family is not prompt when the time more than quintuples over each of the last two doublings AND exceeds 200 x (its own time at depth 3, at most the median family, at least 5 ms) x depth / 3, twice (the second time alone in a new process); the replay carries the series with the body-parse and block-parse counts. 4 (state): sessions - per literal text (lists with duplicates, nested, computed, tuples, strings, numbers) reader scripts (len, flash_pattern, glyph, index, loop bound, f-string) and mutator scripts (append / remove / += / item store / rebinding / aliases / inside if-while-for-def, under another variable name), transpiled in ONE process as readers, mutators, readers, shuffled mutators, mutators again, readers - every output must equal the script's output alone in a new process (sha256 / exception kind); on a difference every earlier script is tried as single predecessor: the replay is the two-script session; module-level objects of the three modules are digested before / after every parse (a change breaks the tie of Lang/FoldSession.v); random sessions of the model fragment through the extracted model vs the folded values read off the firmware.",
+        "rule": "2b (stack over parse() -> emit(); proof tie + oracle): (a) 36 (120) seeded random program trees 6-18 blocks deep over 9 block slots (if / elif / else / while / for / try / except bodies, main loop, function body; 1-3 statements per body) and 61 simple statements, 12 (40) ladders of random slot patterns with side statements, and every simple statement at the bottom of a ladder - the deepest interpreter frame of the real parse() / emit() (sys.setprofile, a process without audit hook) against need_prog of Lang/NestDepth.v with the regenerated constants, then the outcome of the real pipeline (firmware / clean ValueError from parse / internal error in emit / clean ValueError from emit) with exactly `room` frames left (room = parse's need, one less, three more, emit's need, one less; sys.setrecursionlimit relative to the calling frame) against the model's pipeline; (b) 252 (327) ladder families - every slot alone around 4 statements, main loop / function body over every slot, every simple statement under an if-ladder and under a two-slot mixture, all ordered pairs of slots, random 2-5-slot patterns with 1-4 side statements per level, every slot around each of the four statements of the repaired finding F-C11-emit-stack-window - each with 36 (and 61) frames of room: the deepest depth parse() accepts is found by bisection (+ look-ahead for non-monotone acceptance), emit() must end in firmware or ValueError there and on the two ladders below, every rejection must be ValueError; a failing family is carried to the default limit (shallowest failing depth with 48 and 72 frames, extrapolated to 999 = emit(parse(text)) at module level, run once) and that script is the replay; (c) expressions nested 1-45 deep (6 shapes) in 10 statement / header positions inside 26 and 38 nested blocks with 60 frames of room: both stages may only fail with ValueError; (d) ladders of 21 block headers outside the supported subset or in other spellings (with / class / nested and async def / match / for over lists and tuples / range with step / inner while True / walrus / while-else / for-else / try-finally / try-else / except-as / elif chains / multi-line and commented headers / lambda bodies) and of tab / two-blank indentation, at 19 depths around the acceptance boundary with 40 frames of room: both stages may only end cleanly. Non-trivial here = every tree / ladder at least 6 blocks deep. 0: the witnesses of the repaired findings (for F-C11-emit-stack-window: the deepest if-ladder around rgb.off() parse() accepts with 80 frames left, and the two below; thorough: the 994- and 993-level scripts under the default recursion limit). 1 (proof tie): the C03 expression stream (boundary expressions x environments incl. the values around the size bound + seeded random expressions) plus hostile expression forms, plus towers / giant shifts / wide products and seeded random integer expressions with exponents and shift counts around and beyond the size bound (size oracle max(bound, widest leaf) + nodes on every call-free result), each through the extracted instrumented model (result, primitive trace) and the real _eval_const under recording wrappers (operator module alias, _SAFE_CASTS values, max/min/abs in the parser's namespace) with sys.setprofile / sys.addaudithook; non-trivial = distinct (expression, environment) on which the real evaluator performed at least one primitive operation. 2 (observed, support): hostile expression forms (file / process / import / eval / attribute / lambda / comprehension / walrus / f-string payloads writing a canary file) in every argument position of the property's quantifier (pins, delays, conditions, loop bounds, list items, f-strings, decorators, defaults, device constructor keywords, expression statements), generated expressions in the same positions, real Python sources (the project's own files and standard-library modules), byte noise / shuffled / truncated / corrupted scripts, plus the formerly excluded regions (infinity / NaN / beyond-float-range values x every position incl. all int()/float() resolver sites, towers-shifts-products x positions, multi-line squaring chains, expressions 150..20000 levels deep x positions) - each through the real parse()+emit() with audit hook, canary check, exception kind and a 30 s limit; non-trivial = distinct hostile script that was accepted (firmware produced) - the ones where evaluating the payload would have been possible. 3 (promptness): the regenerated regex inventory - (a) model vs re.fullmatch on the minimal text of each pattern, its pumps and seeded edits of them; (b) pump scripts: for every unbounded repeat of every pattern x up to three feeds (characters of its set / the group's text / the inner set of a nested repeat) x continuations (the rest of the pattern, cut after the run, + one of ! ( [0] ' + 1' \\x01) at 28 characters (every place a line can stand: top level, while / if / else / for / def / try bodies, right-hand side; argument positions incl. quoted pin strings for the patterns applied to arguments) and at 1200 (quick) / 400, 1500, 6000 (thorough) characters, white-space runs cut to the guard; (c) 28 run alphabets x 41 statement frames (target(<run>()), h = target(<run>[0]), names, conditions, decorators, imports, except clauses ...) at 40 and 1500 characters; (d) 23 scale families (many lines / long lines / CRLF) at 250 .. 2000 (8000) by doubling. A script is slow when it needs more than max(5 s, 200 x the median of its stream) twice, the second time alone in a new process; the replay carries the series over growing runs. (e) pieces that refer to each other: 36 fixed helper chains + seeded random scripts of 1..7 defs (return sums of parameters, literals of the four type labels and calls of earlier / later / the same function with parameters or literals as arguments, arity 1..3) with top-level calls between and after the defs, through Lang/VariantCost.v (extracted) and the real parser under a wrapper around _parse_function: the ordered sequence (function, forced signature) must be equal, and no pair may occur twice; 37 depth families of helpers calling each other (see technique) at depth 3, 6, 12, 24 (thorough: .. 96): a family is not prompt when the time more than quintuples over each of the last two doublings AND exceeds 200 x (its own time at depth 3, at most the median family, at least 5 ms) x depth / 3, twice (the second time alone in a new process); the replay carries the series with the body-parse and block-parse counts. 4 (state): sessions - per literal text (lists with duplicates, nested, computed, tuples, strings, numbers) reader scripts (len, flash_pattern, glyph, index, loop bound, f-string) and mutator scripts (append / remove / += / item store / rebinding / aliases / inside if-while-for-def, under another variable name), transpiled in ONE process as readers, mutators, readers, shuffled mutators, mutators again, readers - every output must equal the script's output alone in a new process (sha256 / exception kind); on a difference every earlier script is tried as single predecessor: the replay is the two-script session; module-level objects of the three modules are digested before / after every parse (a change breaks the tie of Lang/FoldSession.v); random sessions of the model fragment through the extracted model vs the folded values read off the firmware. 4a (specially treated names): every binding form (22: def with 0-2 parameters / in the main loop / nested / under if, assignment, sensor value, loop variable, parameter, default, tuple target, global, import-as, from-import-as, class, try, +=, del, list, lambda, with-as, decorator) of each of the eight names of the evaluator's whitelist (len abs max min int float bool str) and of 14 API names (sleep range Led LCD SerialMonitor print target led mon Servo map millis OUTPUT pin_mode) as one script - accepted or rejected - and DIRECTLY after it, in the same process, scripts that fold that builtin on literals in pins / delays / device arguments / global initialisers / conditions / list items / f-strings / loop bounds / function bodies / the main loop and one script folding all eight: each must equal that script alone in a new process (the replay is the pair); random sessions of top-level defs named len / str / helper and len(<string literal>) initialisers through Lang/NameSession.v (extracted, mode = what the regenerated inventory allows) vs which initialisers are folded in the firmware; the reference script around every chunk of the hostile stream folds all eight builtins, and a difference is narrowed to the two-script session. 4b (the user-facing entry point): Reduino.target(\"COM3\", upload=False) with the text as the __main__ file, PATH = one directory that is empty / holds an executable pio that records being started, temporary files inside a scratch directory: 18 bodies that need a library (Servo / parallel LCD / I2C LCD: declared only, used, in while / if / for / try / def bodies, several, with keywords) x 2 (4) target lines, 13 bodies that need none, 8 rejected ones, 70 (400) scripts of the hostile stream (their header declares a parallel LCD) and every Servo / LCD constructor position with benign and hostile arguments - no process-start / network audit event (subprocess.Popen, os.system / exec / posix_spawn / spawn / fork, socket.*, urllib / http ...), the recording pio not run, outcome = firmware text or ValueError / SyntaxError.",
         "samples": [{"expr": hostile[0][0]}, {"script": scripts[0][1][len(HEADER):]}, {"script": scripts[len(pairs) // 2][1][len(HEADER):]}],
         "distribution": dict(sorted(stats.items())),
         "max_wall_s_per_script": max(walls) if walls else 0,
@@ -580,7 +645,7 @@ def run(ctx: C.Ctx):
         "max_const_bits": max_bits,
         "unmodelled": ["the Python process executing parser.py / emitter.py (string building, the hand-written scanners): observed by audit hook + canaries + exception kinds + timing, support only - not proved; of the regex engine only the number of backtracking paths of the textbook search is modelled (sets restricted to ASCII + a flag, anchors and the one-character look-behind as empty matches) - the engine's own optimisations, its cost per path and non-regex loops are measured (pumps, scale families), not proved",
                        "of the def / call machinery only the memo in front of _parse_function and the one-return-sum fragment are modelled (the number of body parses is the cost; the cost of one body parse, statements other than return, annotations, redefinition of a name, keyword / default arguments, list-typed parameters are measured by the depth families, not proved)", "[paths] counts the successes of a (sub)pattern; the theorem bounds every flat sub-pattern, the total work of a failing match is a sum of such counts over prefixes (not stated as one theorem)",
-                       "CPython's int->str digit limit; the C-level recursion limit of ast.parse (deep EXPRESSIONS: observed on the deep stream and in 2b c, not modelled); of the Python-level recursion limit the frames per block slot / header / simple statement are modelled with measured constants for 61 statement shapes (other statements: boundary oracle only); parse() may accept with fewer frames than its deepest frame when a RecursionError is swallowed by a try / except Exception inside a statement recogniser (counted in distribution) - the model's acceptance need <= room is a lower bound of the real one, the boundary oracle searches the real one; time of deep ladders (text quadratic, parse time cubic in the depth: 48 s at 990 levels) is not judged; `room` is the number of frames left when a stage is entered: a caller with no frame left at all cannot call parse() / emit() (the RecursionError is then raised in the caller's own frame, not by the transpiler) - rooms below the prelude's need only occur in the model; the MemoryError half of the two wrappers is not exercised", "IEEE infinities / NaN and the binary64 range (the model's floats are exact rationals): int(inf) / float(<huge int>) at the folding call sites fall back to the run-time expression - observed on the infinity stream in every numeric position, not modelled", "growth of folded strings across lines (s = s + s repeated: 2^n characters after n lines; ends in a caught MemoryError and the run-time expression, about 10 s under an 8 GB limit) - outside the three repaired findings, not generated", "target() reading the file (C12)", "ast.literal_eval fallbacks (flash_pattern, ultrasonic model): exercised by the hostile scripts, not modelled",
+                       "CPython's int->str digit limit; the C-level recursion limit of ast.parse (deep EXPRESSIONS: observed on the deep stream and in 2b c, not modelled); of the Python-level recursion limit the frames per block slot / header / simple statement are modelled with measured constants for 61 statement shapes (other statements: boundary oracle only); parse() may accept with fewer frames than its deepest frame when a RecursionError is swallowed by a try / except Exception inside a statement recogniser (counted in distribution) - the model's acceptance need <= room is a lower bound of the real one, the boundary oracle searches the real one; time of deep ladders (text quadratic, parse time cubic in the depth: 48 s at 990 levels) is not judged; `room` is the number of frames left when a stage is entered: a caller with no frame left at all cannot call parse() / emit() (the RecursionError is then raised in the caller's own frame, not by the transpiler) - rooms below the prelude's need only occur in the model; the MemoryError half of the two wrappers is not exercised", "IEEE infinities / NaN and the binary64 range (the model's floats are exact rationals): int(inf) / float(<huge int>) at the folding call sites fall back to the run-time expression - observed on the infinity stream in every numeric position, not modelled", "growth of folded strings across lines (s = s + s repeated: 2^n characters after n lines; ends in a caught MemoryError and the run-time expression, about 10 s under an 8 GB limit) - outside the three repaired findings, not generated", "target(): reading the __main__ file and writing the PlatformIO project into a temporary directory are what target(upload=False) is for (C12 judges them) - stream 4b judges process starts / network access / the outcome kind only; upload=True is C12's", "ast.literal_eval fallbacks (flash_pattern, ultrasonic model): exercised by the hostile scripts, not modelled",
                        "environment reads (os.environ) have no audit event: only the canary / builtins profile would show them inside _eval_const"],
         "trusted_base": C.COMMON_TRUSTED + ["harness/gen/safecasts.py (operator / cast / safe-name tables of parser.py)", "harness/gen/regexes.py (walks the ast of parser.py / emitter.py / ast.py / __init__.py / pio.py for re.* calls, evaluates the pattern expressions, cross-checks with the compiled module-level objects, lowers CPython's re._parser parse; fail-closed)", "harness/gen/setsites.py (module-level state inventory, shared with C10)", "harness/gen/nestdepth.py + harness/c11_nest.py (sys.setprofile frame counting of the real parse() / emit() on ladders, linear fit re-checked on six further ladders, fail-closed; sys.setrecursionlimit relative to the calling frame as the definition of `room`)", "the recording wrappers around parser._parse_function / _parse_simple_lines (module attributes, resolved at call time) as the observation of body parses", "wall-clock time of the implementation runner as the observation of 'promptly' (relative to the median of the same stream, confirmed in a second process)",
                                             "CPython audit events and sys.setprofile c_call events as the observation of 'access' and 'call' (support part)"],
@@ -612,6 +677,16 @@ def replay(data):
         bad = (alone["sha"], alone["exc"]) != (together[-1]["sha"], together[-1]["exc"])
         print("still failing" if bad else "no longer failing")
         return 1 if bad else 0
+    if kind == "target":
+        scratch = str(C.BUILD / "c11_target_replay")
+        r = C.run_impl("c11_impl.py", {"cases": [["target", case["text"], case.get("pio", "absent"), scratch]], "limit": 30})[0]
+        shutil.rmtree(scratch, ignore_errors=True)
+        print(f"real Reduino.target(\"COM3\", upload=False) with the text as the __main__ file, PATH = one directory ({'an executable pio that records its start' if case.get('pio') == 'fake' else 'empty: no pio'}):")
+        print("  outcome:", r["exc"] or "returned " + str(r["returned"]), "-", r["msg"] or "", "| parse()+emit() alone:", r["alone"] or "accepted")
+        print("  process / network audit events:", r["proc"], "| pio was run with:", r["pio_ran"])
+        bad = bool(r["proc"]) or bool(r["pio_ran"]) or r["exc"] not in CLEAN or (r["exc"] is None and r["returned"] != "str")
+        print("still failing" if bad else "no longer failing")
+        return 1 if bad else 0
     if kind == "call-graph":
         fam = O.V.families().get(case.get("family"))
         r = O.variants_alone(case["text"], 60)
@@ -626,6 +701,12 @@ def replay(data):
         ref = O.alone(Q.PUMP_HEADER + "led.on()\n", 30)
         print("real parse()+emit():", r, "- a one-line reference script:", ref)
         bad = r["exc"] == "Timeout" or r["wall"] > max(O.SLOW_ABS, O.SLOW_REL * ref["wall"]) or r["exc"] not in CLEAN or bool(r["audit"])
+        print("still failing" if bad else "no longer failing")
+        return 1 if bad else 0
+    if str(data.get("key", "")).startswith("env-read") and isinstance(case, dict) and "text" in case and not case["text"].endswith("...<cut>"):
+        r = C.run_impl("c11_impl.py", {"cases": [["script", case["text"]]], "limit": 30})[0]
+        print("real parse()+emit():", r)
+        bad = bool(r.get("env")) or r["exc"] not in CLEAN or bool(r["audit"])
         print("still failing" if bad else "no longer failing")
         return 1 if bad else 0
     from harness.props.c03_replay import replay_c11
